@@ -23,7 +23,7 @@ ordinary error" (never a panic).  `e.equals e = true` is reflexivity of
 `int`.  `Env` carries what the callbacks obtain from package `convert` and from
 the set hash function; the theorems hold for every `Env`.
 -/
-import CtyModel.Lemmas.StdlibRange
+import CtyModel.Lemmas.StdlibCall
 import CtyModel.Lemmas.Asc
 namespace CtyModel
 namespace C13
@@ -415,6 +415,134 @@ theorem mergeTotalOnNulls_false : ¬ MergeTotalOnNulls := by
   · have := merge_null_object_counterexample
     simpa [byName] using this
 
+/-! ## element, end to end -/
+
+/-- **`ElementFunc.Call(list, index)`** — the `Type` callback, the call protocol of
+C10 (argument checks, conformance assertion on the result) and the `Impl`
+callback together: the same answer, errors being the callbacks' own errors -/
+theorem element_call (e : Ty) (vs : List Payload) (x : Num)
+    (hc : Ty.conformErrs e e = 0)
+    (hlen : (vs.length : Int) ≤ maxInt) (hm : ∀ p ∈ vs, p.isMarked = false) :
+    (Fn.call elementSpec elementType elementImpl [⟨.list e, .seq vs⟩, numVal x]).1 =
+      match Gocty.int64Exact x with
+      | none => .err (.callback "invalid index")
+      | some i =>
+        match Spec.element? vs i with
+        | none => .err (.callback "cannot use element function with an empty list")
+        | some p => .ok ⟨e, p⟩ :=
+  element_call_list e vs x hc hlen hm
+
+/-! ## concat, flatten -/
+
+/-- **concat** of lists of one type is the list of all their members in order; of
+tuples, the tuple of all members with the concatenated type -/
+theorem concat_eq (E : Env) (e : Ty) (he : e.equals e = true) (hs : e.equals e.stripOpt = true)
+    (ls : List (List Payload)) (tups : List (List Ty × List Payload))
+    (hl : ∀ t ∈ tups, t.1.length = t.2.length) :
+    concatImpl E (sameLists e ls) (.list e) = .ok (mkList e ls.flatten) ∧
+    concatImpl E (tups.map fun t => ⟨.tuple t.1, .seq t.2⟩) (.tuple (tups.flatMap (·.1))) =
+      .ok ⟨.tuple (tups.flatMap (·.1)), .seq (tups.flatMap (·.2))⟩ :=
+  ⟨concatImpl_lists E e he hs ls, concatImpl_tuples E tups hl⟩
+
+/-- result type of `concat` for lists of one type (given that unifying equal types
+answers that type — C09), and no arguments are an error -/
+theorem concat_type (E : Env) (e : Ty) (ls : List (List Payload)) (hne : ls ≠ [])
+    (hu : E.unify (ls.map fun _ => .list e) = .ok (some (.list e))) :
+    concatType E (sameLists e ls) = .ok (.list e) ∧ Fails (concatType E []) :=
+  ⟨concatType_lists E e ls hne hu, concatType_empty E⟩
+
+/-- **flatten** of a non-empty list or tuple (wholly known, mark-free, no sets
+inside): the tuple of the leaves in order — every non-null list or tuple at any
+depth replaced by its members, null sequences kept — typed leaf by leaf, and the
+`Type` callback predicts exactly that type -/
+theorem flatten_eq (E : Env) (t : Ty) (p : Payload) (hn : isNest t p = true) (hok : flatOK t p = true)
+    (hne : ∀ n, lengthInt ⟨t, p⟩ = .ok n → n ≠ 0) (hwk : (⟨t, p⟩ : Value).whollyKnown = true) (retTy : Ty) :
+    flattenImpl E [⟨t, p⟩] retTy = .ok (Gocty.tupleVal (flatElem t p)) ∧
+    flattenType E [⟨t, p⟩] = .ok (.tuple ((flatElem t p).map (·.ty))) ∧
+    (Gocty.tupleVal (flatElem t p)).ty = .tuple ((flatElem t p).map (·.ty)) :=
+  ⟨flattenImpl_spec E t p hn hok hne retTy, flattenType_spec E t p hn hok hwk, flatten_result_type t p⟩
+
+/-- an empty list or tuple flattens to the empty tuple -/
+theorem flatten_empty (E : Env) (e : Ty) (retTy : Ty) :
+    flattenImpl E [⟨.list e, .seq []⟩] retTy = .ok emptyTuple ∧
+    flattenImpl E [⟨.tuple [], .seq []⟩] retTy = .ok emptyTuple := flattenImpl_empty E e retTy
+
+/-! ## contains, coalesce -/
+
+/-- **contains** on a known list: `true` iff some member `Equals` the value -/
+theorem contains_eq (E : Env) (e : Ty) (vs : List Payload) (x : Value) (retTy : Ty)
+    (hx : x.isKnown = true) (hne : vs ≠ [])
+    (hd : ∀ p ∈ vs, ∃ bv, Value.equals x ⟨e, p⟩ = .ok (boolVal bv)) :
+    containsImpl E [⟨.list e, .seq vs⟩, x] retTy = .ok (boolVal (vs.any fun p => eqT x ⟨e, p⟩)) ∧
+    containsImpl E [⟨.list e, .seq []⟩, x] retTy = .ok (boolVal false) :=
+  ⟨containsImpl_list E e vs x retTy hx hne hd, containsImpl_empty E e x retTy⟩
+
+/-- **coalesce** on known arguments: the first non-null one, converted to the
+unified type; an error when all are null -/
+theorem coalesce_first_non_null (E : Env) (retTy : Ty) (args : List Value) (hk : ∀ a ∈ args, a.isKnown = true) :
+    coalesceImpl E args retTy =
+      match args.find? (fun a => !a.isNull) with
+      | some a => convertTo E a retTy
+      | none => .err "no non-null arguments" :=
+  coalesceLoop_eq E retTy args hk
+
+/-! ## length, hasindex, sethaselement: the C02 operations -/
+
+/-- `length`, `hasindex`, `sethaselement` are `Value.Length`, `Value.HasIndex`,
+`Value.HasElement` (C02), and their `Type` callbacks accept exactly lists, maps,
+tuples (and sets for `length`) -/
+theorem wrappers (E : Env) (c k : Value) (retTy : Ty) :
+    lengthImpl [c] retTy = Value.length c ∧
+    hasIndexImpl [c, k] retTy = Value.hasIndex c k ∧
+    setHasElementImpl E [c, k] retTy = Value.hasElement c k (E.hash k.ty k.v) ∧
+    (lengthType [c] = .ok .number ↔
+      (isTupleTy c.ty || isListTy c.ty || isMapTy c.ty || isSetTy c.ty || c.ty.isDyn) = true) ∧
+    (hasIndexType [c, k] = .ok .bool ↔
+      (isTupleTy c.ty || isListTy c.ty || isMapTy c.ty || c.ty.isDyn) = true) :=
+  ⟨rfl, rfl, rfl, lengthType_ok_iff c, hasIndexType_ok_iff c k⟩
+
+/-- `length` of a known list is the number of its members -/
+theorem length_list (e : Ty) (vs : List Payload) (retTy : Ty) :
+    lengthImpl [⟨.list e, .seq vs⟩] retTy = .ok (intVal vs.length) := C02.length_list e vs
+
+/-! ## set union, intersection, subtraction, symmetric difference -/
+
+/-- what each function computes on two known sets of one element type: the
+`cty/set` operation of C03 on the two value sets, copied into a set value -/
+theorem setop_is_set_operation (E : Env) (ety : Ty) (k : SetOpKind) (ida idb : List Int) (va vb : List Payload)
+    (hs : ety.equals ety.stripOpt = true) (he : ety.equals ety = true)
+    (hha : ∀ p ∈ va, (E.hash ety p).isSome = true) (hhb : ∀ p ∈ vb, (E.hash ety p).isSome = true)
+    (hka : Payload.whollyKnownL va = true) (hkb : Payload.whollyKnownL vb = true) :
+    setOpImpl E k [⟨.set ety, .sset ida va⟩, ⟨.set ety, .sset idb vb⟩] (.set ety) =
+      .ok (ofSetImpl ety (SetImpl.copy (k.run (setRules E ety)
+        (SetImpl.fromList (setRules E ety) (setIter E ety va))
+        (SetImpl.fromList (setRules E ety) (setIter E ety vb))))) :=
+  setOpImpl_two E ety k ida idb va vb hs he hha hhb hka hkb
+
+/-- **set algebra = list-set algebra**: the members of the result represent exactly
+the union / intersection / difference / symmetric difference of the classes the
+members of the arguments represent — for `Equals`/`Hash` lawful on the element
+type (an equivalence relation that agrees with hashing: C03) -/
+theorem setop_members (E : Env) (ety : Ty) (k : SetOpKind) (ida idb : List Int) (va vb : List Payload)
+    (hR : (setRules E ety).Lawful)
+    (hs : ety.equals ety.stripOpt = true) (he : ety.equals ety = true)
+    (hha : ∀ p ∈ va, (E.hash ety p).isSome = true) (hhb : ∀ p ∈ vb, (E.hash ety p).isSome = true)
+    (hka : Payload.whollyKnownL va = true) (hkb : Payload.whollyKnownL vb = true) :
+    ∃ ids vs,
+      setOpImpl E k [⟨.set ety, .sset ida va⟩, ⟨.set ety, .sset idb vb⟩] (.set ety) = .ok ⟨.set ety, .sset ids vs⟩ ∧
+      ∀ y, Spec.memBy (setRules E ety).equiv vs y ↔
+        k.spec (Spec.memBy (setRules E ety).equiv va y) (Spec.memBy (setRules E ety).equiv vb y) :=
+  setOp_members E ety k ida idb va vb hR hs he hha hhb hka hkb
+
+/-- the result is laid out as a valid set value and holds no two equal members;
+its type is `set(ety)` -/
+theorem setop_result_wellformed (E : Env) (ety : Ty) (k : SetOpKind) (hR : (setRules E ety).Lawful)
+    (s1 s2 : SetImpl Payload) (hd : ety.equals .dyn = false) (sets : List (List Int × List Payload))
+    (hne : sets ≠ []) (hu : E.unify (sets.map fun _ => ety) = .ok (some ety)) :
+    SetImpl.Inv (setRules E ety) (k.run (setRules E ety) s1 s2) ∧
+    setOpType E (setArgs ety sets) = .ok (.set ety) :=
+  ⟨setOp_result_inv E ety k hR s1 s2, setOpType_same E ety hd sets hne hu⟩
+
 /-! ## Non-vacuity: the hypotheses above are satisfiable by non-trivial values -/
 
 example : Gocty.int64Exact (Num.ofInt (-7)) = some (-7) := by decide
@@ -444,6 +572,11 @@ example : Spec.IsMapOf [("b", 1), ("a", 2), ("b", 3)] [("a", 2), ("b", 3)] := by
       have e2 : ("b" == k) = false := by simpa using fun h => h2 h.symm
       simp [Spec.assoc, Spec.lastBinding, e1, e2]
 example : Spec.firstOccs (fun a b : Nat => a == b) [1, 2, 1, 3, 2] = [1, 2, 3] := by decide
+example : isNest (.tuple [.list .string, .number]) (.seq [.seq [.s "a", .s "b"], .n (Num.ofInt 1)]) = true ∧
+    flatOK (.tuple [.list .string, .number]) (.seq [.seq [.s "a", .s "b"], .n (Num.ofInt 1)]) = true := by decide
+example : (flatElem (.tuple [.list .string, .number]) (.seq [.seq [.s "a", .s "b"], .n (Num.ofInt 1)])).length = 3 := by
+  decide
+example : Ty.conformErrs (.list .string) (.list .string) = 0 := by decide
 
 end C13
 end CtyModel
